@@ -206,6 +206,20 @@ pub fn run_c19(a: &Args) {
         let ok = matches!(&got, Ok(g) if eq64(*g, want, false));
         cases.push(C { g: None, note: format!("eval_str({text:?})"), family: "parsed", ok, onote: format!("{want:?}"), answer: format!("{got:?}") });
     }
+    // the constant constructors and from_num of DeepEx / Calculate
+    {
+        use exmex::prelude::*; use exmex::DeepEx;
+        let items: Vec<(&str, Result<f64, String>, f64)> = vec![
+            ("DeepEx::pi()", DeepEx::<f64>::pi().eval(&[]).map_err(|e| e.to_string()), std::f64::consts::PI),
+            ("DeepEx::e()", DeepEx::<f64>::e().eval(&[]).map_err(|e| e.to_string()), std::f64::consts::E),
+            ("DeepEx::tau()", DeepEx::<f64>::tau().eval(&[]).map_err(|e| e.to_string()), std::f64::consts::TAU),
+            ("DeepEx::one()", DeepEx::<f64>::one().eval(&[]).map_err(|e| e.to_string()), 1.0),
+            ("DeepEx::zero()", DeepEx::<f64>::zero().eval(&[]).map_err(|e| e.to_string()), 0.0),
+            ("DeepEx::from_num(2.5)", DeepEx::<f64>::from_num(2.5).eval(&[]).map_err(|e| e.to_string()), 2.5),
+            ("FlatEx::from_num(-0.0)", FlatEx::<f64>::from_num(-0.0).eval(&[]).map_err(|e| e.to_string()), -0.0),
+        ];
+        for (name, got, want) in items { let ok = matches!(&got, Ok(g) if eq64(*g, want, false)); cases.push(C { g: None, note: name.to_string(), family: "constructors", ok, onote: format!("{want:?}"), answer: format!("{got:?}") }); }
+    }
     std::fs::create_dir_all(&a.out).unwrap();
     let with_g: Vec<usize> = (0..cases.len()).filter(|i| cases[*i].g.is_some()).collect();
     let shard = a.shard.max(1); let n_shards = ((with_g.len() + shard - 1) / shard).max(1);
@@ -380,6 +394,46 @@ pub fn run_c20(a: &Args) {
             let e = DeepEx::<f64>::parse(&t).map_err(|e| e.to_string()); e.and_then(|e| e.eval(&[0.5]).map(|v| v.to_bits()).map_err(|e| e.to_string())) }).collect::<Vec<_>>() }) }).collect();
         for h in handles { histories += 1; match h.join() { Ok(rs) => for r in rs { if r != want.1 { bad.push(format!("concurrent deep parse of a text nested 60 deep: {r:?}, sequentially {:?}", want.1)); } }, Err(_) => bad.push("a thread parsing a nested text panicked".into()) } }
     }
+    // histories on ONE expression: any sequence of eval / eval_vec / eval_iter / clone / compile gives, at every step, what a
+    // freshly parsed (and equally compiled) expression gives; also through a shared Arc from several threads
+    {
+        let texts = ["1+2+y*x*x", "2*3*x+x*y+1+4", "x*x*x+1+2", "1+2*3+x", "sin(1)+x*x-y*y*y", "x+y", "-2*-x*x"];
+        let fresh = |t: &str, compiled: bool, vals: &[f64]| -> Result<u64, String> { let mut f = FlatEx::<f64>::parse_wo_compile(t).map_err(|e| e.to_string())?; if compiled { f.compile(); } f.eval(vals).map(|v| v.to_bits()).map_err(|e| e.to_string()) };
+        for t in texts {
+            let n = FlatEx::<f64>::parse_wo_compile(t).map(|f| f.var_names().len()).unwrap_or(0);
+            let vals: Vec<f64> = (0..n).map(|q| 3.0 + 2.0 * q as f64).collect();
+            // all sequences of length 4 over the five operations
+            for code in 0..5usize.pow(4) {
+                let mut c = code; let ops: Vec<usize> = (0..4).map(|_| { let o = c % 5; c /= 5; o }).collect();
+                let Ok(mut e) = FlatEx::<f64>::parse_wo_compile(t) else { bad.push(format!("harness: {t} does not parse")); break };
+                let mut compiled = false; let mut trace = String::new();
+                for o in &ops {
+                    let want = fresh(t, compiled, &vals);
+                    let got: Result<u64, String> = match o {
+                        0 => { trace.push_str("eval;"); e.eval(&vals).map(|v| v.to_bits()).map_err(|x| x.to_string()) }
+                        1 => { trace.push_str("eval_vec;"); e.eval_vec(vals.clone()).map(|v| v.to_bits()).map_err(|x| x.to_string()) }
+                        2 => { trace.push_str("eval_iter;"); e.eval_iter(vals.iter().copied()).map(|v| v.to_bits()).map_err(|x| x.to_string()) }
+                        3 => { trace.push_str("clone;"); e = e.clone(); e.eval_vec(vals.clone()).map(|v| v.to_bits()).map_err(|x| x.to_string()) }
+                        _ => { trace.push_str("compile;"); e.compile(); compiled = true; fresh(t, true, &vals).and_then(|w| e.eval_vec(vals.clone()).map(|v| v.to_bits()).map_err(|x| x.to_string()).map(|g| if g == w { w } else { g })) }
+                    };
+                    let want = if *o == 4 { fresh(t, true, &vals) } else { want };
+                    if got != want { bad.push(format!("history {trace} on {t:?} at {vals:?}: {:?}, a fresh expression gives {:?}", got.map(f64::from_bits), want.map(f64::from_bits))); break }
+                }
+                histories += 1;
+                if bad.len() > 20 { break }
+            }
+            // a shared uncompiled expression evaluated by several threads, then cloned and compiled
+            if let Ok(e) = FlatEx::<f64>::parse_wo_compile(t) {
+                let sh = Arc::new(e);
+                let hs: Vec<_> = (0..4).map(|k| { let (sh, vals) = (sh.clone(), vals.clone()); std::thread::spawn(move || if k % 2 == 0 { sh.eval_vec(vals).ok().map(|v| v.to_bits()) } else { sh.eval_iter(vals.into_iter()).ok().map(|v| v.to_bits()) }) }).collect();
+                let want = fresh(t, false, &vals).ok();
+                for h in hs { histories += 1; if h.join().ok().flatten() != want { bad.push(format!("shared uncompiled {t:?}: a thread's consuming evaluation differs from a fresh one")); } }
+                let mut c = (*sh).clone(); c.compile();
+                let got = c.eval_vec(vals.clone()).ok().map(|v| v.to_bits());
+                if got != fresh(t, true, &vals).ok() { bad.push(format!("clone of a shared evaluated {t:?}, compiled: eval_vec gives {:?}, a fresh compiled expression {:?}", got.map(f64::from_bits), fresh(t, true, &vals).ok().map(f64::from_bits))); }
+            }
+        }
+    }
     // evaluation never modifies the expression
     match (FlatEx::<f64>::parse("x*2+y"), DeepEx::<f64>::parse("x*2+y")) {
         (Ok(f), Ok(d)) => {
@@ -507,6 +561,70 @@ pub fn run_c07e(a: &Args) {
         json_str(&c.note), json_str(&format!("all f64 text entry points on {}", c.note)), c.ok, json_str(&c.onote), json_str(&c.answer))).collect();
     writeln!(f, "{}\n]}}", items.join(",\n")).unwrap();
     println!("mode=c07e cases={} oracle_failures={}", cases.len(), cases.iter().filter(|c| !c.ok).count());
+}
+
+
+/// C09 on the f64 API (oracle only): the differentiation entry points are wrappers of each other and must agree --
+/// partial(i), partial_nth(i, n), partial_iter(seq) and their relaxed variants with MissingOpMode::Error: the n-th derivative
+/// is n single ones, an iterated derivative the sequential ones in that order, order zero the identity, an index that is
+/// not smaller than the number of variables an error for every variant; flat and deep.
+pub fn run_c09w(a: &Args) {
+    use exmex::prelude::*;
+    use exmex::{DeepEx, Differentiate, MissingOpMode};
+    let mut r = Rng::new(a.seed ^ 0x09e);
+    let mut texts: Vec<String> = ["x*y^2", "(a+b)*c^3", "x^2*y^3*z", "sin(x)*y+exp(x*y)", "x/y-ln(x+2)", "x", "2*3", "1.5", "sin(0.3)+2^2", "x*x*x*x", "exp(x+2*y)", "a*b*c*d", "sqrt(x*x+y*y+1)"].iter().map(|s| s.to_string()).collect();
+    for _ in 0..a.n { let f = ["sin", "cos", "exp", "tanh", "atan"][r.below(5)]; let g = ["x*y", "x+y*z", "x*x-y", "y/(x*x+1)"][r.below(4)]; texts.push(format!("{f}({g})*x+{}*y", 1 + r.below(5))); }
+    struct C { note: String, ok: bool, onote: String }
+    let mut cases: Vec<C> = vec![];
+    fn sigf(e: &exmex::ExResult<FlatEx<f64>>, pts: &[Vec<f64>]) -> String {
+        match e { Err(_) => "Err".to_string(), Ok(e) => { let n = e.var_names().len(); format!("{:?} {:?}", e.var_names(), pts.iter().map(|p| e.eval(&p[..n]).map(|v| (v * 1e9).round() / 1e9).map_err(|_| ())).collect::<Vec<_>>()) } }
+    }
+    fn sigd<'a>(e: &exmex::ExResult<DeepEx<'a, f64>>, pts: &[Vec<f64>]) -> String {
+        match e { Err(_) => "Err".to_string(), Ok(e) => { let n = e.var_names().len(); format!("{:?} {:?}", e.var_names(), pts.iter().map(|p| e.eval(&p[..n]).map(|v| (v * 1e9).round() / 1e9).map_err(|_| ())).collect::<Vec<_>>()) } }
+    }
+    let pts: Vec<Vec<f64>> = vec![vec![0.3, 0.8, 1.1, 0.6], vec![1.3, 0.4, 0.7, 2.1]];
+    let texts: Vec<&'static str> = texts.into_iter().map(|t| &*Box::leak(t.into_boxed_str())).collect();
+    for t in texts.iter().copied() {
+        let Ok(f0) = FlatEx::<f64>::parse(t) else { cases.push(C { note: t.to_string(), ok: false, onote: "does not parse".into() }); continue };
+        let Ok(d0) = DeepEx::<f64>::parse(t) else { cases.push(C { note: t.to_string(), ok: false, onote: "does not parse (deep)".into() }); continue };
+        let nv = f0.var_names().len();
+        for idx in 0..nv + 2 { for n in 0..3usize {
+            let seq: Vec<usize> = vec![idx; n];
+            let singles = |mut e: exmex::ExResult<FlatEx<f64>>| { for _ in 0..n { e = e.and_then(|x| x.partial(idx)); } e };
+            let want = if n == 0 && idx >= nv { sigf(&FlatEx::<f64>::parse(t).and_then(|e| e.partial_iter(std::iter::once(idx)).and(FlatEx::<f64>::parse(t))), &pts) } else { sigf(&singles(Ok(f0.clone())), &pts) };
+            // an out-of-range index is an error whatever the order... except order zero, where nothing is differentiated
+            let want = if idx >= nv && n > 0 { "Err".to_string() } else if n == 0 { sigf(&Ok::<_, exmex::ExError>(f0.clone()), &pts) } else { want };
+            let variants: Vec<(&str, String)> = vec![
+                ("flat partial_nth", sigf(&f0.clone().partial_nth(idx, n), &pts)),
+                ("flat partial_iter", sigf(&f0.clone().partial_iter(seq.iter().copied()), &pts)),
+                ("flat partial_nth_relaxed", sigf(&f0.clone().partial_nth_relaxed(idx, n, MissingOpMode::Error), &pts)),
+                ("flat partial_iter_relaxed", sigf(&f0.clone().partial_iter_relaxed(seq.iter().copied(), MissingOpMode::Error), &pts)),
+                ("deep partial_nth", sigd(&d0.clone().partial_nth(idx, n), &pts)),
+                ("deep partial_iter", sigd(&d0.clone().partial_iter(seq.iter().copied()), &pts)),
+                ("deep partial_nth_relaxed", sigd(&d0.clone().partial_nth_relaxed(idx, n, MissingOpMode::Error), &pts)),
+            ];
+            let mut vs = variants;
+            if n == 1 { vs.push(("flat partial", sigf(&f0.clone().partial(idx), &pts))); vs.push(("flat partial_relaxed", sigf(&f0.clone().partial_relaxed(idx, MissingOpMode::Error), &pts)));
+                        vs.push(("deep partial", sigd(&d0.clone().partial(idx), &pts))); vs.push(("deep partial_relaxed", sigd(&d0.clone().partial_relaxed(idx, MissingOpMode::Error), &pts))); }
+            let badv: Vec<String> = vs.iter().filter(|(_, s)| *s != want).map(|(n2, s)| format!("{n2}: {s}")).collect();
+            cases.push(C { note: format!("{t:?} index {idx} order {n}"), ok: badv.is_empty(), onote: if badv.is_empty() { String::new() } else { format!("{n} single derivatives give {want}; but {}", badv.join("; ")) } });
+        } }
+        // mixed sequences: partial_iter = the sequential single derivatives in that order
+        if nv >= 2 { for seq in [vec![0usize, 1], vec![1, 0], vec![1, 1, 0], vec![0, nv - 1, 0]] {
+            let mut e: exmex::ExResult<FlatEx<f64>> = Ok(f0.clone()); for i in &seq { e = e.and_then(|x| x.partial(*i)); }
+            let want = sigf(&e, &pts);
+            let vs = vec![("flat partial_iter", sigf(&f0.clone().partial_iter(seq.iter().copied()), &pts)), ("deep partial_iter", sigd(&d0.clone().partial_iter(seq.iter().copied()), &pts)), ("flat partial_iter_relaxed", sigf(&f0.clone().partial_iter_relaxed(seq.iter().copied(), MissingOpMode::Error), &pts))];
+            let badv: Vec<String> = vs.iter().filter(|(_, s)| *s != want).map(|(n2, s)| format!("{n2}: {s}")).collect();
+            cases.push(C { note: format!("{t:?} sequence {seq:?}"), ok: badv.is_empty(), onote: if badv.is_empty() { String::new() } else { format!("the single derivatives in that order give {want}; but {}", badv.join("; ")) } });
+        } }
+    }
+    std::fs::create_dir_all(&a.out).unwrap();
+    let mut f = std::io::BufWriter::new(std::fs::File::create(format!("{}/meta.json", a.out)).unwrap());
+    writeln!(f, "{{\"shard_size\": 1, \"n_shards\": 0, \"tables\": [[]], \"cases\": [").unwrap();
+    let items: Vec<String> = cases.iter().map(|c| format!("{{\"tb\": 0, \"family\": \"differentiation-entry-points\", \"note\": {}, \"prog\": {}, \"size\": 3, \"nontrivial\": true, \"oracle_ok\": {}, \"oracle_note\": {}, \"answers\": []}}",
+        json_str(&c.note), json_str(&format!("partial / partial_nth / partial_iter (relaxed) on {}", c.note)), c.ok, json_str(&c.onote))).collect();
+    writeln!(f, "{}\n]}}", items.join(",\n")).unwrap();
+    println!("mode=c09w cases={} oracle_failures={}", cases.len(), cases.iter().filter(|c| !c.ok).count());
 }
 
 /// regenerates coq/Gen/Tables.v from the implementation's own operator tables and derivative rule names
